@@ -185,7 +185,7 @@ theorem gamma_supported (rules : List Rule) (chosen : Array Bool) (natoms : Nat)
   have := gamma_least rules chosen natoms ctx M hM i h
   simp only [M, Bool.and_eq_true, List.any_eq_true] at this
   obtain ⟨_, r, hr, hf⟩ := this
-  simp only [Bool.and_eq_true, decide_eq_true_eq, List.all_eq_true, Bool.not_eq_true'] at hf
+  simp only [decide_eq_true_eq, List.all_eq_true, Bool.not_eq_true'] at hf
   exact ⟨r, hr, hf.1.1.1, hf.1.1.2, hf.1.2, hf.2⟩
 
 /-! ### the well-founded model of an acyclic program -/
@@ -305,5 +305,23 @@ theorem isModel_unique {P : Prog} {natoms : Nat} {rk : Atom → Nat} (hw : WfP P
     rw [h a, h' a, Bool.eq_iff_iff, List.any_eq_true, List.any_eq_true]
     exact ⟨fun ⟨c, h1, h2⟩ => ⟨c, h1, by rw [← hcl c h1]; exact h2⟩,
       fun ⟨c, h1, h2⟩ => ⟨c, h1, by rw [hcl c h1]; exact h2⟩⟩
+
+/-! ### the decidable form of the hypotheses -/
+
+theorem nodupB_sound : ∀ (l : List Nat), nodupB l = true → l.Nodup
+  | [], _ => List.nodup_nil
+  | x :: xs, h => by
+    simp only [nodupB, Bool.and_eq_true, Bool.not_eq_true', List.contains_eq_mem, decide_eq_false_iff_not] at h
+    exact List.nodup_cons.2 ⟨h.1, nodupB_sound xs h.2⟩
+
+theorem wfB_sound {P : Prog} {natoms : Nat} {rk : Atom → Nat} (h : wfB P natoms rk = true) : WfP P natoms rk := by
+  simp only [wfB, Bool.and_eq_true, List.all_eq_true, decide_eq_true_eq, acyclicB] at h
+  obtain ⟨⟨⟨h1, h2⟩, h3⟩, h4⟩ := h
+  refine ⟨nodupB_sound _ h1, h2, fun a c hc b hb => ?_, fun a c hc => ?_⟩
+  · obtain ⟨cs, hd, hc'⟩ := mem_clausesOf hc
+    exact h3 (a, cs) hd c hc' b hb
+  · obtain ⟨cs, hd, hc'⟩ := mem_clausesOf hc
+    have := h4 (a, cs) hd c hc'
+    simpa using this
 
 end ProbLogProofs.GroundSem
